@@ -1,9 +1,10 @@
 #!/bin/bash
-# usage: confirm_seed.sh <prop> <A|B> [src worktree of the agent]
+# usage: confirm_seed.sh <prop> <A|B> [src worktree of the agent] [id suffix to store under, default = variant]
 # Confirms a seeded change independently in a fresh worktree of /repo HEAD:
 #   patch applies, library builds, the existing suite passes, the demo fails with the
 #   change and passes without it.  On success the seed is stored in /verif/seeded/<prop>-<v>/.
 P="$1"; V="$2"; SRC="${3:-/tmp/seed/$P}/SEED/$V"
+DV="${4:-$V}"
 WT=/tmp/confirm/$P-$V
 LOG=/tmp/confirm/$P-$V.log
 mkdir -p /tmp/confirm; rm -f "$LOG"
@@ -28,7 +29,7 @@ echo "demo rc with change: $RC_WITH, without: $RC_WITHOUT" | tee -a "$LOG"
 OK=0
 if [ "$PASS" -ge 119 ] && [ "$FAIL" -eq 0 ] && [ "$RC_WITH" -ne 0 ] && [ "$RC_WITHOUT" -eq 0 ]; then OK=1; fi
 if [ $OK -eq 1 ]; then
-  DEST=/verif/seeded/$P-$V; rm -rf "$DEST"; mkdir -p "$DEST"
+  DEST=/verif/seeded/$P-$DV; rm -rf "$DEST"; mkdir -p "$DEST"
   cp "$SRC/patch.diff" "$DEST/patch.diff"
   for f in "$SRC"/*; do case "$f" in *.log|*/demo|*.o) ;; *) cp -r "$f" "$DEST"/ ;; esac; done
   tail -5 "$LOG.demo_with" > "$DEST/demo_with_change.txt"; tail -3 "$LOG.demo_without" > "$DEST/demo_without_change.txt"
